@@ -91,68 +91,76 @@ def matchWord (rd : Nat → UInt8) (p : Nat) (w : List UInt8) : Bool :=
 
 def decimalDigits (n : Nat) : Nat := (Nat.toDigits 10 n).length
 
+/-- digits, optional `.`, digits: (mantissa value, digits before the point, digits after it, end) -/
+def scanMant (rd : Nat → UInt8) (hex : Bool) (fuel q : Nat) : Nat × Nat × Nat × Nat :=
+  let a := scanDigits rd hex fuel q 0 0
+  if rd a.2.2 == 46 then
+    let b := scanDigits rd hex fuel (a.2.2 + 1) a.1 0
+    (b.1, a.2.1, b.2.1, b.2.2)
+  else (a.1, a.2.1, 0, a.2.2)
+
+/-- optional exponent part (`marker` = 'e' or 'p') at `r2`: (exponent, end); not consumed unless a digit follows -/
+def scanExp (rd : Nat → UInt8) (fuel : Nat) (marker : UInt8) (r2 : Nat) : Int × Nat :=
+  if lower (rd r2) == marker then
+    let s := rd (r2 + 1)
+    let r := if s == 45 || s == 43 then r2 + 2 else r2 + 1
+    if isDigit (rd r) then
+      let d := scanDigits rd false fuel r 0 0
+      ((if s == 45 then -(d.1 : Int) else (d.1 : Int)), d.2.2)
+    else (0, r2)
+  else (0, r2)
+
+def nanScan (rd : Nat → UInt8) : Nat → Nat → Nat
+  | 0, r => r
+  | fuel + 1, r => if isAlnum_ (rd r) then nanScan rd fuel (r + 1) else r
+
+def signed (negative : Bool) (v : F64) : F64 := if negative then v + 2 ^ 63 else v
+
+def strtodHex (rd : Nat → UInt8) (fuel : Nat) (negative : Bool) (q : Nat) : Nat × F64 :=
+  let mt := scanMant rd true fuel (q + 2)
+  let ex := scanExp rd fuel 112 mt.2.2.2
+  let m := mt.1
+  let e2 : Int := ex.1 - 4 * (mt.2.2.1 : Int)
+  let r3 := ex.2
+  if m = 0 then (r3, signed negative 0) else
+  let mag : Int := (Nat.log2 m : Int) + e2
+  if mag > 1100 then (r3, signed negative F64.inf)
+  else if mag < -1200 then (r3, signed negative 0)
+  else if e2 ≥ 0 then (r3, ratToF64 negative (m * 2 ^ e2.toNat) 1)
+  else (r3, ratToF64 negative m (2 ^ (-e2).toNat))
+
+def strtodDec (rd : Nat → UInt8) (fuel : Nat) (negative : Bool) (p q : Nat) : Nat × F64 :=
+  let mt := scanMant rd false fuel q
+  if mt.2.1 + mt.2.2.1 = 0 then (p, 0) else
+  let ex := scanExp rd fuel 101 mt.2.2.2
+  let m := mt.1
+  let e10 : Int := ex.1 - (mt.2.2.1 : Int)
+  let r3 := ex.2
+  if m = 0 then (r3, signed negative 0) else
+  let mag : Int := (decimalDigits m : Int) + e10
+  if mag > 400 then (r3, signed negative F64.inf)
+  else if mag < -400 then (r3, signed negative 0)
+  else if e10 ≥ 0 then (r3, ratToF64 negative (m * 10 ^ e10.toNat) 1)
+  else (r3, ratToF64 negative m (10 ^ (-e10).toNat))
+
 /-- Model of glibc `strtod` in the "C" locale started at `p` on a byte that is not white space.
-    `fuel` bounds the scan (callers pass remaining length + 2).  Returns `(new p, value)`;
+    `fuel` bounds the scans (callers pass remaining length + 2).  Returns `(new p, value)`;
     `new p = p` means "no conversion". -/
 def strtod (rd : Nat → UInt8) (fuel : Nat) (p : Nat) : Nat × F64 :=
   let c0 := rd p
   let negative := c0 == 45
   let q := if c0 == 45 || c0 == 43 then p + 1 else p
-  let sgn (v : F64) : F64 := if negative then v + 2 ^ 63 else v
-  -- inf / infinity / nan / nan(...)
   if matchWord rd q [105, 110, 102] then
-    if matchWord rd (q + 3) [105, 110, 105, 116, 121] then (q + 8, sgn F64.inf) else (q + 3, sgn F64.inf)
+    if matchWord rd (q + 3) [105, 110, 105, 116, 121] then (q + 8, signed negative F64.inf)
+    else (q + 3, signed negative F64.inf)
   else if matchWord rd q [110, 97, 110] then
     if rd (q + 3) == 40 then
-      let rec scan (fuel : Nat) (r : Nat) : Nat :=
-        match fuel with
-        | 0 => r
-        | fuel + 1 => if isAlnum_ (rd r) then scan fuel (r + 1) else r
-      let r := scan fuel (q + 4)
+      let r := nanScan rd fuel (q + 4)
       if rd r == 41 then (r + 1, F64.nan) else (q + 3, F64.nan)
     else (q + 3, F64.nan)
   else if rd q == 48 && lower (rd (q + 1)) == 120 &&
       ((hexVal (rd (q + 2))).isSome || (rd (q + 2) == 46 && (hexVal (rd (q + 3))).isSome)) then
-    -- hexadecimal floating constant
-    let (m1, _, r1) := scanDigits rd true fuel (q + 2) 0 0
-    let (m, fr, r2) := if rd r1 == 46 then scanDigits rd true fuel (r1 + 1) m1 0 else (m1, 0, r1)
-    -- binary exponent
-    let (ex, r3) : Int × Nat :=
-      if lower (rd r2) == 112 then
-        let s := rd (r2 + 1)
-        let r := if s == 45 || s == 43 then r2 + 2 else r2 + 1
-        if isDigit (rd r) then
-          let (v, _, r') := scanDigits rd false fuel r 0 0
-          ((if s == 45 then -(v : Int) else (v : Int)), r')
-        else (0, r2)
-      else (0, r2)
-    let e2 : Int := ex - 4 * (fr : Int)
-    if m = 0 then (r3, sgn 0) else
-    let mag : Int := (Nat.log2 m : Int) + e2
-    if mag > 1100 then (r3, sgn F64.inf)
-    else if mag < -1200 then (r3, sgn 0)
-    else if e2 ≥ 0 then (r3, ratToF64 negative (m * 2 ^ e2.toNat) 1)
-    else (r3, ratToF64 negative m (2 ^ (-e2).toNat))
-  else
-    -- decimal
-    let (m1, c1, r1) := scanDigits rd false fuel q 0 0
-    let (m, fr, r2) := if rd r1 == 46 then scanDigits rd false fuel (r1 + 1) m1 0 else (m1, 0, r1)
-    if c1 + fr = 0 then (p, 0) else
-    let (ex, r3) : Int × Nat :=
-      if lower (rd r2) == 101 then
-        let s := rd (r2 + 1)
-        let r := if s == 45 || s == 43 then r2 + 2 else r2 + 1
-        if isDigit (rd r) then
-          let (v, _, r') := scanDigits rd false fuel r 0 0
-          ((if s == 45 then -(v : Int) else (v : Int)), r')
-        else (0, r2)
-      else (0, r2)
-    let e10 : Int := ex - (fr : Int)
-    if m = 0 then (r3, sgn 0) else
-    let mag : Int := (decimalDigits m : Int) + e10
-    if mag > 400 then (r3, sgn F64.inf)
-    else if mag < -400 then (r3, sgn 0)
-    else if e10 ≥ 0 then (r3, ratToF64 negative (m * 10 ^ e10.toNat) 1)
-    else (r3, ratToF64 negative m (10 ^ (-e10).toNat))
+    strtodHex rd fuel negative q
+  else strtodDec rd fuel negative p q
 
 end MpVerif.C02
